@@ -53,6 +53,9 @@ theorem C12_socket_udp_new_calls (os : Os) (remote : Addr) (t : Option Timeout) 
       simp only [hb] at hok
       rw [applyTimeout_ok os t _ h' hok]; simp
 
+example : udpNew quietOs (.v6 0 0 0 0 0 0xffff 0x7f00 1 27015 0 0) (some ⟨some ⟨3, 0⟩, some ⟨1, 0⟩, some ⟨2, 0⟩, 0⟩) []
+    = (.ok (), [.bindUdp anyV6, .setReadTimeout (some ⟨1, 0⟩), .setWriteTimeout (some ⟨2, 0⟩)]) := by decide
+
 /-- `TcpSocketImpl::new`: one connection attempt, to the remote address as given: `connect_timeout(remote, d)` when the
 settings (or the defaults: 4 s) carry a connect duration `d`, the unbounded `connect(remote)` only when the caller asked
 for no connect timeout; its failure, whatever the kind (refused, unreachable, timed out, a zero duration refused by
@@ -88,6 +91,9 @@ theorem C12_socket_udp_send_exact (os : Os) (remote : Addr) (data : Bytes) (h : 
     ∧ (∀ k, os.sendTo h data remote = .error k → (udpSend os remote data h).1 = .err .packetSend) :=
   ⟨udpSend_hist os remote data h, by intro n hn; simp [udpSend, hn], by intro k hk; simp [udpSend, hk]⟩
 
+example : udpSend quietOs (.v4 10 0 0 7 27015) [0xff, 0xff, 0xff, 0xff, 0x54] []
+    = (.ok (), [.sendTo [0xff, 0xff, 0xff, 0xff, 0x54] (.v4 10 0 0 7 27015)]) := by decide
+
 /-- A TCP send is exactly ONE `write` of exactly the bytes given; any error of it is `PacketSend`.  What the code does
 with the count: nothing — a write that took only `n < |data|` bytes is reported as success. -/
 theorem C12_socket_tcp_send_one_write (os : Os) (data : Bytes) (h : List Call) :
@@ -95,6 +101,9 @@ theorem C12_socket_tcp_send_one_write (os : Os) (data : Bytes) (h : List Call) :
     ∧ (∀ n, os.write h data = .ok n → (tcpSend os data h).1 = .ok ())
     ∧ (∀ k, os.write h data = .error k → (tcpSend os data h).1 = .err .packetSend) :=
   ⟨tcpSend_hist os data h, by intro n hn; simp [tcpSend, hn], by intro k hk; simp [tcpSend, hk]⟩
+
+/-- one byte of three taken: success all the same -/
+example : tcpSend { quietOs with write := fun _ _ => .ok 1 } [1, 2, 3] [] = (.ok (), [.write [1, 2, 3]]) := by decide
 
 /-! ### receives -/
 
@@ -240,6 +249,10 @@ theorem C12_socket_session_shape (k : Kind) (os : Os) (remote : Addr) (t : Optio
       · exact Or.inr (Or.inl e1)
       · exact Or.inr (Or.inr e1)
 
+example : (session .tcp quietOs (.v4 127 0 0 1 25565) none [.send [1], .receive none]).2.2
+    = [.connectTimeout (.v4 127 0 0 1 25565) ⟨4, 0⟩, .setReadTimeout (some ⟨4, 0⟩), .setWriteTimeout (some ⟨4, 0⟩), .write [1], .read 1] := by
+  decide
+
 /-- For every kind of socket, every remote address, every settings value (or none: the defaults), every behaviour of the
 system and every sequence of sends and receives — failed ones included: each blocking call is made under the bound the
 settings ask for.  The connection attempt is bounded by the connect duration; every `send_to` / `write` is made after
@@ -375,3 +388,7 @@ theorem C12_socket_refines_recv (os : Os) (remote src : Addr) (s : Sock) (size :
       cases dl with
       | data d => simp only [tcpAnswer, Stream.outcome, hs', ↓reduceIte]; cases d <;> simp
       | silence => simp [tcpAnswer, Stream.outcome]
+
+/-- the three refinement statements on an instance: a scripted datagram of 3 bytes read into a buffer of 2 -/
+example : (step .udp { quietOs with recvFrom := fun _ _ => udpAnswer (.v4 127 0 0 1 9) [.data [1, 2, 3]] } (.v4 127 0 0 1 9) (.receive (some 2)) []).1
+    = (Gd.recv ⟨0, 9, false⟩ (some 2) ⟨[], [[.data [1, 2, 3]]], [], []⟩).1 := by decide
